@@ -251,8 +251,12 @@ def gen(rng, names, depth, nodes=(), binders=True, renames=True):
             return '\t'
         if r < 0.94:
             return ' \n '
-        if r < 0.97:
+        if r < 0.955:
             return ' (* c /\\ ~ *) '
+        if r < 0.97:
+            return rng.choice((' (** banner **) ', ' (**** h ****) ',
+                               ' (* see above **) ', ' (***) ', ' (**) ',
+                               ' (* a * b ) *) ', ' (*** odd ***) '))
         return ' (* two\nlines *) '
 
     def atom():
